@@ -139,6 +139,7 @@ Definition run_kernel (fn : string) (c : json) : option json :=
     do j <- jfield_of jnat "j" c ;; do i <- jfield_of jnat "i" c ;;
     Some (of_list of_nat (draw_key [] n_ids t j i))
   else if String.eqb fn "state_space" then run_state_space c
+  else if String.eqb fn "template" then run_template c
   else if String.eqb fn "indexers_and_segments" then
     do mask <- jfield_of (jarr jbool) "mask" c ;; do n <- jfield_of jnat "n_sparse_states" c ;;
     let r := create_indexers_and_segments mask n in
